@@ -30,6 +30,15 @@ func main() {
 			os.Exit(2)
 		}
 		fn.WriteTo(os.Stdout)
+	case "check":
+		fs := flag.NewFlagSet("check", flag.ExitOnError)
+		repo := fs.String("repo", "/repo", "repository")
+		prop := fs.String("property", "", "property id")
+		tier := fs.String("tier", "quick", "quick|thorough")
+		seed := fs.Int("seed", 0, "seed")
+		vdir := fs.String("verif", "/verif", "verif dir")
+		fs.Parse(os.Args[2:])
+		os.Exit(gvc.RunProperty(*repo, *vdir, *prop, *tier, *seed))
 	case "verify":
 		fs := flag.NewFlagSet("verify", flag.ExitOnError)
 		verbose := fs.Bool("v", false, "verbose")
